@@ -224,15 +224,15 @@ Proof.
   intros H. unfold draw_items, nonempty in *.
   replace ((im_height img =? 0) || (im_width img =? 0)) with true by lia. reflexivity.
 Qed.
-Lemma draw_items_cached st img h pos x : nonempty img -> lookup (image_id h) (k_imgs st) = Some x ->
-  draw_items st img h pos = [put_item (image_id h) (placement_id pos) (qval st)].
+Lemma draw_items_cached st img h pos x : nonempty img -> lookup (image_id st h) (k_imgs st) = Some x ->
+  draw_items st img h pos = [put_item (image_id st h) (placement_id pos) (qval st)].
 Proof.
   intros [H1 H2] Hl. unfold draw_items, cached.
   replace ((im_height img =? 0) || (im_width img =? 0)) with false by lia. rewrite Hl. reflexivity.
 Qed.
-Lemma draw_items_fresh st img h pos : nonempty img -> lookup (image_id h) (k_imgs st) = None ->
+Lemma draw_items_fresh st img h pos : nonempty img -> lookup (image_id st h) (k_imgs st) = None ->
   draw_items st img h pos =
-  tx_items (image_id h) (qval st) img ++ [put_item (image_id h) (placement_id pos) (qval st)].
+  tx_items (image_id st h) (qval st) img ++ [put_item (image_id st h) (placement_id pos) (qval st)].
 Proof.
   intros [H1 H2] Hl. unfold draw_items, cached.
   replace ((im_height img =? 0) || (im_width img =? 0)) with false by lia. rewrite Hl. reflexivity.
@@ -256,47 +256,66 @@ Proof.
   intros Hp. zify_divmod. lia.
 Qed.
 
-Lemma event_redraw lost st s id p img hash : Inv false st s -> lookup id (k_imgs st) = Some (img, hash) ->
-  let pre := pre_err lost id s in
+(* the commands handle writes for an error response naming a cached image and a placement, run on any
+   terminal state s0 that is related to the handler (after the removal of the image from its cache) *)
+Lemma redraw_run strict st s0 id p img hash sup : cache_wf st -> ids_range (k_ids st) ->
+  lookup id (k_imgs st) = Some (img, hash) ->
+  Inv strict (mkKitty (remove_key id (k_imgs st)) (k_ids st) (Some 2)) s0 -> t_sent s0 = [] ->
   let pos := placement_to_pos p in
-  let s' := store_run pre (handle_items st (EvKitty id (Some p) true)) in
+  let s' := store_run s0 (handle_items st (EvKitty id (Some p) true)) in
+  Inv strict (mkKitty ((id, (img, hash)) :: remove_key id (k_imgs st)) (ids_note (k_ids st) hash) sup) s' /\
   t_sent s' = [(id, content_of img)] /\
   t_places s' = (id, placement_id pos, Some pos)
                 :: filter (fun q => negb (is_place id (placement_id pos) q))
-                     (filter (fun q => negb (place_id q =? id)) (t_places pre)) /\
-  t_cursor s' = t_cursor pre /\
+                     (filter (fun q => negb (place_id q =? id)) (t_places s0)) /\
+  t_cursor s' = t_cursor s0 /\
   pids_named (handle_items st (EvKitty id (Some p) true)) = Some [placement_id pos].
 Proof.
-  intros HI Hl. pose proof HI as [Hc He Hp Hi Hv Hpc].
-  destruct (Hc _ _ _ Hl) as (Hid & Hwf & Hne).
-  destruct (pre_err_facts lost id s) as (Hs0 & Hp0' & He0).
+  intros Hc Hir Hl HI0 Hs0.
+  destruct (Hc _ _ _ Hl) as (Hlk & Hwf & Hne).
+  pose proof (image_id_known st hash id Hlk) as Hid.
   cbn [handle_items]. rewrite Hl.
-  set (st1 := mkKitty (remove_key id (k_imgs st)) (Some 2)).
+  set (st1 := mkKitty (remove_key id (k_imgs st)) (k_ids st) (Some 2)) in *.
   set (pos := placement_to_pos p).
-  assert (Hl1 : lookup (image_id hash) (k_imgs st1) = None) by (rewrite Hid; apply lookup_remove_same).
+  change (image_id st hash) with (image_id st1 hash) in Hid.
+  assert (Hl1 : lookup (image_id st1 hash) (k_imgs st1) = None) by (rewrite Hid; apply lookup_remove_same).
   rewrite (draw_items_fresh st1 img hash pos Hne Hl1).
-  set (s0 := pre_err lost id s) in *.
-  cbv zeta. split; [|split; [|split]].
-  4:{ rewrite pids_named_eq. cbn [flat_map item_pids app]. rewrite !flat_map_app. unfold tx_items.
-      rewrite pids_chunks. cbn [flat_map app]. rewrite pids_put. reflexivity. }
-  all: rewrite !store_run_cons.
-  all: assert (Hp0 : t_pending s0 = None) by (rewrite Hp0'; exact Hp).
-  all: set (s1 := item_step s0 ISave).
-  all: assert (E1 : s1 = set_cursor (t_cursor s0) (Some (t_cursor s0)) s0)
+  cbv zeta.
+  assert (Hpids : pids_named (ISave :: IMoveTo (fst pos + 1) (snd pos + 1)
+                    :: (tx_items (image_id st1 hash) (qval st1) img ++ [put_item (image_id st1 hash) (placement_id pos) (qval st1)])
+                    ++ [IRestore]) = Some [placement_id pos]).
+  { rewrite pids_named_eq. cbn [flat_map item_pids app]. rewrite !flat_map_app. unfold tx_items.
+    rewrite pids_chunks. cbn [flat_map app]. rewrite pids_put. reflexivity. }
+  rewrite !store_run_cons.
+  assert (Hp0 : t_pending s0 = None) by exact (inv_pending _ _ _ HI0).
+  set (s1 := item_step s0 ISave).
+  assert (E1 : s1 = set_cursor (t_cursor s0) (Some (t_cursor s0)) s0)
     by (unfold s1; cbn [item_step]; rewrite Hp0; reflexivity).
-  all: set (s2 := item_step s1 (IMoveTo (fst pos + 1) (snd pos + 1))).
-  all: assert (E2 : s2 = set_cursor (Some pos) (t_saved s1) s1)
+  set (s2 := item_step s1 (IMoveTo (fst pos + 1) (snd pos + 1))).
+  assert (E2 : s2 = set_cursor (Some pos) (t_saved s1) s1)
     by (unfold s2; cbn [item_step]; rewrite E1; cbn [set_cursor t_pending]; rewrite Hp0, !pred_max_succ;
         destruct pos; reflexivity).
-  all: assert (Hp2 : t_pending s2 = None) by (rewrite E2, E1; exact Hp0).
-  all: rewrite store_run_app.
-  all: rewrite (run_draw_fresh s2 (image_id hash) (placement_id pos) (qval st1) img Hp2 Hwf Hne
-                  (image_id_range hash) (placement_id_range pos)).
-  all: cbn [store_run fold_left item_step t_pending set_cursor t_sent t_places t_cursor t_saved].
-  all: rewrite ?Hid.
+  assert (Hp2 : t_pending s2 = None) by (rewrite E2, E1; exact Hp0).
+  assert (HI2 : Inv strict st1 s2) by (rewrite E2, E1; apply inv_set_cursor, inv_set_cursor, HI0).
+  rewrite store_run_app.
+  destruct (inv_draw_fresh strict st1 s2 sup img hash (placement_id pos) (qval st1) HI2 Hwf Hne Hl1
+              (placement_id_range pos)) as (HI3 & _).
+  cbv zeta in HI3.
+  set (s3 := store_run s2 (tx_items (image_id st1 hash) (qval st1) img ++
+                           [put_item (image_id st1 hash) (placement_id pos) (qval st1)])) in *.
+  assert (E4 : item_step s3 IRestore =
+               set_cursor (match t_saved s3 with Some c => c | None => Some (0, 0) end) (t_saved s3) s3).
+  { cbn [item_step]. rewrite (inv_pending _ _ _ HI3). reflexivity. }
+  cbn [store_run fold_left]. rewrite E4.
+  split; [rewrite Hid in HI3; apply inv_set_cursor, HI3|].
+  assert (E3 : s3 = _) by (unfold s3; apply (run_draw_fresh s2 (image_id st1 hash) (placement_id pos) (qval st1) img Hp2 Hwf Hne
+             (image_id_range st1 hash Hir) (placement_id_range pos))).
+  rewrite E3. cbn [set_cursor t_sent t_places t_cursor t_saved]. rewrite Hid.
+  repeat split.
   - rewrite E2, E1. cbn [set_cursor t_sent]. rewrite Hs0. reflexivity.
   - rewrite E2, E1. cbn [set_cursor t_places t_cursor]. reflexivity.
   - rewrite E2, E1. cbn [set_cursor t_saved]. reflexivity.
+  - rewrite Hid in Hpids. exact Hpids.
 Qed.
 
 Lemma places_filter2 id pid (l : list place) :
@@ -311,28 +330,47 @@ Section World.
   (* every image is well formed and its content entry is its window, width, height *)
   Hypothesis Wimg : forall img h c, In (img, h, c) imgs ->
     image_wf img /\ nth_error contents c = Some (content_rec img).
-  (* content index and image id determine each other (deterministic hash, no 32-bit collision) *)
+  (* content index and 64-bit content hash determine each other (the hash is a function of the content;
+     no two contents of the case collide in the full 64-bit fnv hash) *)
   Hypothesis Wid : forall i1 h1 c1 i2 h2 c2, In (i1, h1, c1) imgs -> In (i2, h2, c2) imgs ->
-    (c1 = c2 <-> image_id h1 = image_id h2).
+    (c1 = c2 <-> h1 = h2).
 
-  Definition ids_ok (ids : list (nat * N)) : Prop :=
-    forall c i, In (c, i) ids -> exists img h, In (img, h, c) imgs /\ image_id h = i.
+  (* the ids the predicate has learned are those the handler remembers for the world's contents *)
+  Definition tids_ok (st : kitty) (tids : list (nat * N)) : Prop :=
+    forall c i, In (c, i) tids -> exists img h, In (img, h, c) imgs /\ lookup h (k_ids st) = Some i.
 
-  Lemma learn_id_ok img h c ids : In (img, h, c) imgs -> ids_ok ids ->
-    exists ids', learn_id c (image_id h) ids = Some ids' /\ ids_ok ids' /\ In (c, image_id h) ids' /\
-                 (forall e, In e ids -> In e ids').
+  Lemma tids_grow st st' tids :
+    (forall h i, lookup h (k_ids st) = Some i -> lookup h (k_ids st') = Some i) ->
+    tids_ok st tids -> tids_ok st' tids.
+  Proof. intros Hg Hok c i Hin. destruct (Hok c i Hin) as (img & h & Hw & Hl). exists img, h. split; [exact Hw|apply Hg, Hl]. Qed.
+
+  (* learning the id of a drawn / erased image: succeeds, and is consistent with the table after the call *)
+  Lemma learn_id_ok st img h c tids : In (img, h, c) imgs -> ids_ok (k_ids st) -> tids_ok st tids ->
+    exists tids', learn_id c (image_id st h) tids = Some tids' /\
+                  tids_ok (note_id st h) tids' /\ In (c, image_id st h) tids' /\
+                  (forall e, In e tids -> In e tids').
   Proof.
-    intros Hin Hok. unfold learn_id.
-    destruct (id_of_cid c ids) as [i|] eqn:E1.
+    intros Hin Hio Hok. unfold learn_id.
+    assert (Hgrow : forall h0 i0, lookup h0 (k_ids st) = Some i0 -> lookup h0 (k_ids (note_id st h)) = Some i0)
+      by (intros h0 i0 H0; cbn [note_id k_ids]; apply lookup_note_kept, H0).
+    destruct (id_of_cid c tids) as [i|] eqn:E1.
     - apply id_of_cid_in in E1. destruct (Hok c i E1) as (img' & h' & Hin' & Hi).
-      assert (image_id h' = image_id h) by (apply (Wid img' h' c img h c Hin' Hin); reflexivity).
-      replace (i =? image_id h) with true by lia. exists ids. repeat split; auto. congruence.
-    - destruct (cid_of_id (image_id h) ids) as [c'|] eqn:E2.
+      assert (h' = h) by (apply (Wid img' h' c img h c Hin' Hin); reflexivity). subst h'.
+      rewrite (image_id_known st h i Hi). rewrite N.eqb_refl. exists tids.
+      repeat split; auto. apply (tids_grow st); assumption.
+    - destruct (cid_of_id (image_id st h) tids) as [c'|] eqn:E2.
       + exfalso. apply cid_of_id_in in E2. destruct (Hok c' _ E2) as (img' & h' & Hin' & Hi).
-        assert (c' = c) by (apply (Wid img' h' c' img h c Hin' Hin); exact Hi). subst c'.
-        exact (id_of_cid_none c ids _ E1 E2).
+        destruct (lookup h (k_ids st)) as [i|] eqn:Hl.
+        * rewrite (image_id_known st h i Hl) in *.
+          assert (h' = h) by (apply (ids_ok_inj (k_ids st) h' h i Hio Hi Hl)). subst h'.
+          assert (c' = c) by (apply (Wid img' h c' img h c Hin' Hin); reflexivity). subst c'.
+          exact (id_of_cid_none c tids _ E1 E2).
+        * apply (id_in_fresh (k_ids st) h Hio Hl). apply lookup_in in Hi.
+          apply in_map_iff. exists (h', image_id st h). split; [reflexivity|exact Hi].
       + eexists. split; [reflexivity|]. repeat split.
-        * intros c0 i0 [X|X]; [inversion X; subst; eauto|exact (Hok c0 i0 X)].
+        * intros c0 i0 [X|X].
+          -- inversion X; subst. exists img, h. split; [exact Hin|]. cbn [note_id k_ids]. apply lookup_note_same.
+          -- exact (tids_grow st _ tids Hgrow Hok c0 i0 X).
         * left. reflexivity.
         * intros e He. right. exact He.
   Qed.
@@ -341,11 +379,13 @@ Section World.
   Record Sim (st : kitty) (t : track) : Prop := mkSim {
     sim_inv : Inv false st (tk_store t);
     sim_sent : forall x, nmem x (tk_sent t) = nmem x (keys st);
-    sim_ids : ids_ok (tk_ids t);
+    sim_ids : tids_ok st (tk_ids t);
     sim_where : where_ok (tk_where t);
     (* what is cached came from the world and its id has been learned *)
     sim_cache : forall id img hash, lookup id (k_imgs st) = Some (img, hash) ->
-                  exists c, In (img, hash, c) imgs /\ In (c, id) (tk_ids t) }.
+                  exists c, In (img, hash, c) imgs /\ In (c, id) (tk_ids t);
+    (* the handler's id table: valid ids, one per content, no id twice, room for more *)
+    sim_table : ids_ok (k_ids st) }.
 
   Lemma sim_init quiet : Sim (kitty_new quiet) track0.
   Proof.
@@ -355,24 +395,30 @@ Section World.
     - intros c i H. contradiction.
     - intros i p q H. contradiction.
     - intros id img hash H. discriminate.
+    - constructor; cbn [kitty_new k_ids map length].
+      + intros h0 i0 H0. discriminate.
+      + constructor.
+      + constructor.
+      + rewrite max_id_const. reflexivity.
   Qed.
 
   Lemma only_gfx_draw st img h pos : only_gfx (draw_items st img h pos) = true.
   Proof.
     unfold draw_items. destruct ((im_height img =? 0) || (im_width img =? 0)); [reflexivity|].
     destruct (cached st h); [reflexivity|]. unfold only_gfx, tx_items. rewrite forallb_app.
-    fold (only_gfx (chunk_items true (image_id h) (im_height img) (im_width img) (qval st) (tx_chunks img))).
+    fold (only_gfx (chunk_items true (image_id st h) (im_height img) (im_width img) (qval st) (tx_chunks img))).
     rewrite only_gfx_chunks. reflexivity.
   Qed.
 
   (* draw *)
   Lemma check_draw st t img h c pos : Sim st t -> In (img, h, c) imgs -> pos_ok pos ->
+    N.of_nat (S (length (k_ids st))) < KITTY_MAX_ID ->
     exists t', check_step contents t (SDraw c pos) (fst (draw st img h pos)) 0 = Good t' /\
                Sim (snd (draw st img h pos)) t'.
   Proof.
-    intros HS Hin Hpos. destruct HS as [HI Hsent Hids Hwh Hcache].
+    intros HS Hin Hpos Hroom. destruct HS as [HI Hsent Hids Hwh Hcache Htab].
     destruct (Wimg img h c Hin) as [Hwf Hc].
-    pose proof HI as [Hcw He Hp Hi Hv Hpc].
+    pose proof HI as [Hcw He Hp Hi Hv Hpc Hir].
     pose proof (step_draw_ok false true st (tk_store t) img h pos HI Hwf) as [HI' _].
     rewrite term_step_items in HI' by assumption. rewrite snd_step_draw in HI'.
     cbn [pre_store step_items] in HI'.
@@ -391,17 +437,18 @@ Section World.
         eexists. split; [reflexivity|]. constructor; cbn [with_store tk_store tk_sent tk_ids tk_where]; try assumption. }
     pose proof Hne as [Hh Hw].
     replace ((im_width img =? 0) || (im_height img =? 0)) with false by lia.
-    pose proof (image_id_range h) as Hid. pose proof (placement_id_range pos) as Hpid.
-    destruct (learn_id_ok img h c (tk_ids t) Hin Hids) as (ids' & Hlid & Hids' & Hcin & Hsub).
-    destruct (learn_where_ok (image_id h) pos (tk_where t) Hwh Hpos) as (w' & Hlw & Hw' & Hwsub).
+    pose proof (image_id_range st h Hir) as Hid. pose proof (placement_id_range pos) as Hpid.
+    destruct (learn_id_ok st img h c (tk_ids t) Hin Htab Hids) as (ids' & Hlid & Hids' & Hcin & Hsub).
+    pose proof (ids_note_ok (k_ids st) h Htab Hroom) as Htab'.
+    destruct (learn_where_ok (image_id st h) pos (tk_where t) Hwh Hpos) as (w' & Hlw & Hw' & Hwsub).
     rewrite ids_named_eq, pids_named_eq.
-    destruct (lookup (image_id h) (k_imgs st)) as [[img0 h0]|] eqn:Hl.
+    destruct (lookup (image_id st h) (k_imgs st)) as [[img0 h0]|] eqn:Hl.
     - (* cached: placement only *)
       rewrite (draw_items_cached st img h pos _ Hne Hl) in *.
       rewrite (draw_cached st img h pos _ Hne Hl) in *. cbn [snd] in *.
       cbn [flat_map app]. rewrite ids_put, pids_put. cbn [app all_some option_map forallb].
       rewrite Hlid, Hsent, nmem_keys, Hl.
-      set (s' := store_run pre [put_item (image_id h) (placement_id pos) (qval st)]) in *.
+      set (s' := store_run pre [put_item (image_id st h) (placement_id pos) (qval st)]) in *.
       assert (Es : s' = _) by (unfold s'; apply (run_put pre _ _ _ (content_of img0));
         [exact Hp|exact Hid|exact Hpid|exact (Hi _ _ _ Hl)]).
       pose proof HI' as HI''. rewrite Es in HI''.
@@ -410,13 +457,9 @@ Section World.
       unfold places_of at 1 2. cbn [t_places clear_log map fst]. rewrite places_filter.
       rewrite pl_same_add. cbn [negb]. rewrite Hlw.
       eexists. split; [reflexivity|].
-      constructor; cbn [tk_store tk_sent tk_ids tk_where k_imgs]; try assumption; try exact HI''.
-      + intros x. change (nmem x (image_id h :: tk_sent t)) with ((x =? image_id h) || nmem x (tk_sent t)).
-        rewrite Hsent. change (keys {| k_imgs := k_imgs st; k_suppress := k_suppress st |}) with (keys st).
-        destruct (x =? image_id h) eqn:E; [|reflexivity]. apply N.eqb_eq in E. subst x.
-        rewrite nmem_keys, Hl. reflexivity.
-      + intros id img1 h1 Hl1. cbn [k_imgs] in Hl1. destruct (Hcache _ _ _ Hl1) as (c1 & Hin1 & Hc1).
-        exists c1. split; [exact Hin1|apply Hsub, Hc1].
+      constructor; cbn [tk_store tk_sent tk_ids tk_where k_imgs k_ids]; try assumption; try exact HI''; try exact Hids'.
+      intros id img1 h1 Hl1. cbn [k_imgs] in Hl1. destruct (Hcache _ _ _ Hl1) as (c1 & Hin1 & Hc1).
+      exists c1. split; [exact Hin1|apply Hsub, Hc1].
     - (* not cached: transmission, then placement *)
       rewrite (draw_items_fresh st img h pos Hne Hl) in *.
       rewrite (draw_fresh st img h pos Hne Hl) in *. cbn [snd] in *.
@@ -433,10 +476,10 @@ Section World.
       unfold places_of at 1 2. cbn [t_places clear_log map fst]. rewrite places_filter.
       rewrite map_fst_filter_id, pl_same_add. cbn [negb]. rewrite Hlw.
       eexists. split; [reflexivity|].
-      constructor; cbn [tk_store tk_sent tk_ids tk_where k_imgs]; try assumption; try exact HI''.
-      + intros x. change (nmem x (image_id h :: tk_sent t)) with ((x =? image_id h) || nmem x (tk_sent t)).
+      constructor; cbn [tk_store tk_sent tk_ids tk_where k_imgs k_ids]; try assumption; try exact HI''; try exact Hids'.
+      + intros x. change (nmem x (image_id st h :: tk_sent t)) with ((x =? image_id st h) || nmem x (tk_sent t)).
         rewrite Hsent. reflexivity.
-      + intros id img1 h1 Hl1. cbn [k_imgs lookup] in Hl1. destruct (image_id h =? id) eqn:E.
+      + intros id img1 h1 Hl1. cbn [k_imgs lookup] in Hl1. destruct (image_id st h =? id) eqn:E.
         * apply N.eqb_eq in E. inversion Hl1; subst. exists c. split; assumption.
         * destruct (Hcache _ _ _ Hl1) as (c1 & Hin1 & Hc1). exists c1. split; [exact Hin1|apply Hsub, Hc1].
   Qed.
@@ -444,36 +487,39 @@ Section World.
   (* erase *)
   Lemma check_erase st t img h c pos : Sim st t -> In (img, h, c) imgs ->
     match pos with Some p => pos_ok p | None => True end ->
-    exists t', check_step contents t (SErase c pos) (erase img h pos) 0 = Good t' /\ Sim st t'.
+    N.of_nat (S (length (k_ids st))) < KITTY_MAX_ID ->
+    exists t', check_step contents t (SErase c pos) (fst (erase st img h pos)) 0 = Good t' /\
+               Sim (snd (erase st img h pos)) t'.
   Proof.
-    intros HS Hin Hpos. destruct HS as [HI Hsent Hids Hwh Hcache].
+    intros HS Hin Hpos Hroom. destruct HS as [HI Hsent Hids Hwh Hcache Htab].
     destruct (Wimg img h c Hin) as [Hwf Hc].
-    pose proof HI as [Hcw He Hp Hi Hv Hpc].
+    pose proof HI as [Hcw He Hp Hi Hv Hpc Hir].
     pose proof (step_erase_ok false true st (tk_store t) img h pos HI Hwf) as [HI' _].
-    rewrite term_step_items in HI' by assumption. cbn [step snd pre_store step_items] in HI'.
-    pose proof (image_id_range h) as Hid.
-    destruct (learn_id_ok img h c (tk_ids t) Hin Hids) as (ids' & Hlid & Hids' & Hcin & Hsub).
-    unfold check_step. rewrite parse_erase. cbv zeta.
+    rewrite term_step_items in HI' by assumption. cbn [step erase snd pre_store step_items] in HI'.
+    pose proof (image_id_range st h Hir) as Hid.
+    destruct (learn_id_ok st img h c (tk_ids t) Hin Htab Hids) as (ids' & Hlid & Hids' & Hcin & Hsub).
+    pose proof (ids_note_ok (k_ids st) h Htab Hroom) as Htab'.
+    unfold check_step. rewrite parse_erase. cbn [erase snd]. cbv zeta.
     set (pre := clear_log (tk_store t)) in *.
-    set (s' := store_run pre [del_item (image_id h) (option_map placement_id pos)]) in *.
-    assert (Es : s' = _) by (unfold s'; apply (run_del pre (image_id h) (option_map placement_id pos) Hp Hid);
+    set (s' := store_run pre [del_item (image_id st h) (option_map placement_id pos)]) in *.
+    assert (Es : s' = _) by (unfold s'; apply (run_del pre (image_id st h) (option_map placement_id pos) Hp Hid);
       destruct pos; cbn [option_map]; [apply placement_id_range|exact I]).
     rewrite (inv_errs _ _ _ HI'), (inv_pending _ _ _ HI').
-    change (0 =? 0) with true. cbn [negb]. change (only_gfx [del_item (image_id h) (option_map placement_id pos)]) with true.
+    change (0 =? 0) with true. cbn [negb]. change (only_gfx [del_item (image_id st h) (option_map placement_id pos)]) with true.
     cbn [negb]. pose proof HI' as HI''. rewrite Es in HI''.
     rewrite ids_named_eq, pids_named_eq. cbn [flat_map]. rewrite ids_del. cbn [app all_some option_map forallb negb].
     rewrite Es. cbn [t_sent pre clear_log]. rewrite Hlid.
     destruct pos as [p|]; cbn [option_map].
-    - destruct (learn_where_ok (image_id h) p (tk_where t) Hwh Hpos) as (w' & Hlw & Hw' & Hwsub).
+    - destruct (learn_where_ok (image_id st h) p (tk_where t) Hwh Hpos) as (w' & Hlw & Hw' & Hwsub).
       pose proof (placement_id_range p) as Hpid.
       rewrite pids_del_some. cbn [app all_some option_map]. replace (placement_id p =? 0) with false by lia.
       rewrite Hlw. unfold places_of. cbn [t_places clear_log]. rewrite places_filter2, pl_same_refl.
       eexists. split; [reflexivity|].
-      constructor; cbn [tk_store tk_sent tk_ids tk_where]; try assumption; try exact HI''.
+      constructor; cbn [tk_store tk_sent tk_ids tk_where note_id k_imgs k_ids]; try assumption; try exact HI''; try exact Hids'.
       intros id img1 h1 Hl1. destruct (Hcache _ _ _ Hl1) as (c1 & Hin1 & Hc1). exists c1. split; [exact Hin1|apply Hsub, Hc1].
     - unfold places_of. cbn [t_places clear_log]. rewrite places_filter_id, pl_same_refl.
       eexists. split; [reflexivity|].
-      constructor; cbn [tk_store tk_sent tk_ids tk_where]; try assumption; try exact HI''.
+      constructor; cbn [tk_store tk_sent tk_ids tk_where note_id k_imgs k_ids]; try assumption; try exact HI''; try exact Hids'.
       intros id img1 h1 Hl1. destruct (Hcache _ _ _ Hl1) as (c1 & Hin1 & Hc1). exists c1. split; [exact Hin1|apply Hsub, Hc1].
   Qed.
 
@@ -484,8 +530,8 @@ Section World.
                  (fst (fst (handle st ev))) (if snd (handle st ev) then 1 else 0) = Good t' /\
                Sim (snd (fst (handle st ev))) t'.
   Proof.
-    intros HS. destruct HS as [HI Hsent Hids Hwh Hcache].
-    pose proof HI as [Hcw He Hp Hi Hv Hpc].
+    intros HS. destruct HS as [HI Hsent Hids Hwh Hcache Htab].
+    pose proof HI as [Hcw He Hp Hi Hv Hpc Hir].
     pose proof (step_event_ok false lost st (tk_store t) ev ltac:(discriminate) HI) as [HI' _].
     rewrite term_step_items in HI' by (try assumption; exact I). cbn [step step_items] in HI'.
     assert (Hsnd : snd (let '(b, st', r) := handle st ev in (b, if r then 1 else 0, st')) = snd (fst (handle st ev)))
@@ -509,57 +555,70 @@ Section World.
         change (1 =? 1) with true. cbn [negb].
         eexists. split; [reflexivity|].
         constructor; cbn [with_store tk_store tk_sent tk_ids tk_where]; assumption. }
-    (* error response *)
-    rewrite pre_store_err in HI'.
-    change (match (if lost then true else false) with _ => _ end) with (pre_err lost id (tk_store t)) || idtac.
-    assert (Epre : (if lost then store_forget id (clear_log (tk_store t)) else clear_log (tk_store t)) =
-                   pre_err lost id (tk_store t)) by reflexivity.
+    (* error response: the predicate starts from the sentinel cursor with nothing saved *)
+    clear HI'.
     replace (match lost with
              | true => store_forget id (clear_log (tk_store t))
              | false => clear_log (tk_store t)
              end) with (pre_err lost id (tk_store t)) by (destruct lost; reflexivity).
-    set (pre := pre_err lost id (tk_store t)) in *.
-    destruct (pre_err_facts lost id (tk_store t)) as (Hs0 & Hp0' & He0). fold pre in Hs0, Hp0', He0.
+    set (pre := set_cursor (Some CUR_SENTINEL) None (pre_err lost id (tk_store t))) in *.
+    destruct (pre_err_facts lost id (tk_store t)) as (Hs0 & Hp0' & He0).
+    assert (Hs0' : t_sent pre = []) by exact Hs0.
     set (sent0 := filter (fun i => negb (i =? id)) (tk_sent t)).
     assert (Hsent0 : forall x, nmem x sent0 = nmem x (filter (fun y => negb (y =? id)) (keys st))).
     { intros x. unfold sent0. rewrite !nmem_filter, Hsent. reflexivity. }
+    assert (Hdis : false = true -> lost = true) by discriminate.
     destruct (lookup id (k_imgs st)) as [[img hash]|] eqn:Hl.
     2:{ (* unknown to the handler *)
         assert (E : handle_items st (EvKitty id pl true) = []) by (unfold handle_items; rewrite Hl; destruct pl; reflexivity).
         assert (Eh : handle st (EvKitty id pl true) = ([], st, true)) by (unfold handle; rewrite Hl; reflexivity).
+        assert (HIp : Inv false st pre).
+        { apply inv_set_cursor. apply (inv_pre_err false lost st st (tk_store t) id Hdis Hl); [reflexivity|reflexivity|exact HI]. }
         rewrite E, Eh in *. cbn [fst snd store_run fold_left] in *.
-        rewrite (inv_errs _ _ _ HI'), (inv_pending _ _ _ HI').
-        change (1 =? 1) with true. cbn [negb]. rewrite cur_eqb_refl, Hs0, pl_same_refl. cbn [negb].
+        rewrite (inv_errs _ _ _ HIp), (inv_pending _ _ _ HIp).
+        change (1 =? 1) with true. cbn [negb]. rewrite cur_eqb_refl, Hs0', pl_same_refl. cbn [negb].
         eexists. split; [reflexivity|].
         constructor; cbn [tk_store tk_sent tk_ids tk_where]; try assumption.
         intros x. fold sent0. rewrite Hsent0. unfold keys. rewrite filter_keys_absent by exact Hl. reflexivity. }
-    destruct (Hcw _ _ _ Hl) as (Hid & Hwf & Hne).
+    destruct (Hcw _ _ _ Hl) as (Hlk & Hwf & Hne).
+    pose proof (image_id_known st hash id Hlk) as Hid.
+    assert (HIp1 : forall sup, Inv false (mkKitty (remove_key id (k_imgs st)) (k_ids st) sup) pre).
+    { intros sup. apply inv_set_cursor. apply (inv_pre_err false lost st _ (tk_store t) id Hdis);
+        [apply lookup_remove_same| |reflexivity|exact HI].
+      cbn [k_imgs]. intros id' Hne'. apply lookup_remove_other, Hne'. }
     destruct pl as [p|].
     2:{ (* no placement: the image is only dropped from the cache *)
-        assert (Eh : handle st (EvKitty id None true) = ([], mkKitty (remove_key id (k_imgs st)) (k_suppress st), true))
+        assert (Eh : handle st (EvKitty id None true) = ([], mkKitty (remove_key id (k_imgs st)) (k_ids st) (k_suppress st), true))
           by (unfold handle; rewrite Hl; reflexivity).
         assert (E : handle_items st (EvKitty id None true) = []) by reflexivity.
+        pose proof (HIp1 (k_suppress st)) as HIp.
         rewrite E, Eh in *. cbn [fst snd store_run fold_left] in *.
-        rewrite (inv_errs _ _ _ HI'), (inv_pending _ _ _ HI').
-        change (1 =? 1) with true. cbn [negb]. rewrite cur_eqb_refl, Hs0, pl_same_refl. cbn [negb].
+        rewrite (inv_errs _ _ _ HIp), (inv_pending _ _ _ HIp).
+        change (1 =? 1) with true. cbn [negb]. rewrite cur_eqb_refl, Hs0', pl_same_refl. cbn [negb].
         eexists. split; [reflexivity|].
-        constructor; cbn [tk_store tk_sent tk_ids tk_where k_imgs]; try assumption.
+        constructor; cbn [tk_store tk_sent tk_ids tk_where k_imgs k_ids]; try assumption.
         - intros x. fold sent0. rewrite Hsent0. unfold keys. cbn [k_imgs]. rewrite keys_remove. reflexivity.
         - intros id' img1 h1 Hl1. cbn [k_imgs] in Hl1. apply remove_key_sub in Hl1 as [_ Hl1]. exact (Hcache _ _ _ Hl1). }
     (* placement: cursor save, move, re-transmission, placement, cursor restore *)
-    destruct (event_redraw lost st (tk_store t) id p img hash HI Hl) as (Hs' & Hpl' & Hcur' & Hpids).
-    cbv zeta in Hs', Hpl', Hcur'. fold pre in Hs', Hpl', Hcur'.
+    destruct (redraw_run false st pre id p img hash (k_suppress st) Hcw Hir Hl (HIp1 (Some 2)) Hs0')
+      as (HI' & Hs' & Hpl' & Hcur' & Hpids).
+    cbv zeta in HI', Hs', Hpl', Hcur'.
     set (its := handle_items st (EvKitty id (Some p) true)) in *.
     set (s' := store_run pre its) in *.
     set (pos' := placement_to_pos p) in *.
     set (pid := placement_id pos') in *.
+    assert (Enote : ids_note (k_ids st) hash = k_ids st) by (unfold ids_note; rewrite Hlk; reflexivity).
     assert (Eh : snd (handle st (EvKitty id (Some p) true)) = true /\
-                 k_imgs (snd (fst (handle st (EvKitty id (Some p) true)))) = (id, (img, hash)) :: remove_key id (k_imgs st)).
+                 k_imgs (snd (fst (handle st (EvKitty id (Some p) true)))) = (id, (img, hash)) :: remove_key id (k_imgs st) /\
+                 k_ids (snd (fst (handle st (EvKitty id (Some p) true)))) = k_ids st).
     { unfold handle. rewrite Hl.
-      assert (Hl1 : lookup (image_id hash) (remove_key id (k_imgs st)) = None) by (rewrite Hid; apply lookup_remove_same).
-      rewrite (draw_fresh (mkKitty (remove_key id (k_imgs st)) (Some 2)) img hash (placement_to_pos p) Hne Hl1).
-      cbn [fst snd k_imgs]. rewrite Hid. split; reflexivity. }
-    destruct Eh as [Eret Eimgs]. rewrite Eret.
+      set (st1 := mkKitty (remove_key id (k_imgs st)) (k_ids st) (Some 2)).
+      assert (Hid1 : image_id st1 hash = id) by exact Hid.
+      assert (Hl1 : lookup (image_id st1 hash) (k_imgs st1) = None) by (rewrite Hid1; apply lookup_remove_same).
+      rewrite (draw_fresh st1 img hash (placement_to_pos p) Hne Hl1).
+      cbn [fst snd k_imgs k_ids]. change (k_ids st1) with (k_ids st). change (k_imgs st1) with (remove_key id (k_imgs st)).
+      rewrite Hid1, Enote. repeat split; reflexivity. }
+    destruct Eh as (Eret & Eimgs & Eids). rewrite Eret.
     rewrite (inv_errs _ _ _ HI'), (inv_pending _ _ _ HI').
     change (1 =? 1) with true. cbn [negb]. rewrite Hcur', cur_eqb_refl. cbn [negb]. rewrite Hs'.
     destruct (Hcache _ _ _ Hl) as (c & Hinw & Hcid).
@@ -567,7 +626,7 @@ Section World.
     rewrite Hc'.
     assert (c' = c).
     { apply cid_of_id_in in Hc'. destruct (Hids c' id Hc') as (img2 & h2 & Hin2 & Hid2).
-      apply (Wid img2 h2 c' img hash c Hin2 Hinw). congruence. }
+      apply (Wid img2 h2 c' img hash c Hin2 Hinw). exact (ids_ok_inj (k_ids st) h2 hash id Htab Hid2 Hlk). }
     subst c'. destruct (Wimg img hash c Hinw) as [_ Hcont]. rewrite Hcont.
     rewrite N.eqb_refl, timage_eqb_refl. cbn [andb negb]. rewrite Hpids.
     pose proof (placement_id_range pos') as Hpidr. fold pid in Hpidr.
@@ -579,11 +638,17 @@ Section World.
     assert (Hsim : forall w', where_ok w' -> Sim (snd (fst (handle st (EvKitty id (Some p) true))))
                                                (mkTrack s' (tk_ids t) (id :: sent0) w')).
     { intros w' Hw'. constructor; cbn [tk_store tk_sent tk_ids tk_where]; try assumption.
+      - rewrite Enote in HI'. refine (inv_same_cache false _ _ s' _ _ _ HI').
+        + exact Eimgs.
+        + cbn [k_ids]. rewrite Eids. auto.
+        + rewrite Eids. exact Hir.
       - intros x. change (nmem x (id :: sent0)) with ((x =? id) || nmem x sent0).
         rewrite Hsent0. unfold keys. rewrite Eimgs. cbn [map fst]. rewrite keys_remove. reflexivity.
+      - unfold tids_ok. rewrite Eids. exact Hids.
       - intros id' img1 h1 Hl1. rewrite Eimgs in Hl1. cbn [lookup] in Hl1. destruct (id =? id') eqn:E.
         + apply N.eqb_eq in E. inversion Hl1; subst. exists c. split; assumption.
-        + apply remove_key_sub in Hl1 as [_ Hl1]. exact (Hcache _ _ _ Hl1). }
+        + apply remove_key_sub in Hl1 as [_ Hl1]. exact (Hcache _ _ _ Hl1).
+      - rewrite Eids. exact Htab. }
     destruct (ID_MAX <? p) eqn:Ebig.
     { eexists. split; [reflexivity|]. apply Hsim, Hwh. }
     assert (Hple : p <= ID_MAX) by lia.
@@ -596,6 +661,9 @@ Section World.
                     Some (id, pid, Some pos')).
     { rewrite Hpl'. cbn [find place_id place_pid fst snd]. rewrite !N.eqb_refl. reflexivity. }
     rewrite Hfind.
+    assert (Hsen : pos_eqb pos' CUR_SENTINEL = false).
+    { unfold pos_eqb, CUR_SENTINEL, in_dom in *. cbn [fst snd]. destruct Hd' as [Hd1 Hd2]. lia. }
+    rewrite Hsen.
     assert (Hwp : match where_pos id pid (tk_where t) with
                   | Some pos => negb (pos_eqb pos' pos)
                   | None => false
@@ -619,41 +687,66 @@ Section World.
     | CResp _ _ _ _ | COther => True
     end.
 
+  Lemma ids_note_length ids hash : (length (ids_note ids hash) <= S (length ids))%nat.
+  Proof. unfold ids_note. destruct (lookup hash ids); cbn [length]; lia. Qed.
+
+  Lemma draw_ids_length st img h pos : (length (k_ids (snd (draw st img h pos))) <= S (length (k_ids st)))%nat.
+  Proof.
+    unfold draw. destruct ((im_height img =? 0) || (im_width img =? 0)); [cbn [snd]; lia|].
+    destruct (lookup (image_id st h) (k_imgs st)); cbn [snd k_ids]; apply ids_note_length.
+  Qed.
+
+  Lemma handle_ids_length st ev : (length (k_ids (snd (fst (handle st ev)))) <= S (length (k_ids st)))%nat.
+  Proof.
+    unfold handle. destruct ev as [id pl err|]; [|cbn; lia]. destruct err; [|cbn; lia].
+    destruct (lookup id (k_imgs st)) as [[img hash]|]; [|cbn; lia]. destruct pl as [p|]; [|cbn; lia].
+    pose proof (draw_ids_length (mkKitty (remove_key id (k_imgs st)) (k_ids st) (Some 2)) img hash (placement_to_pos p)) as H.
+    destruct (draw _ img hash (placement_to_pos p)) as [b st2]. cbn [fst snd k_ids] in *. exact H.
+  Qed.
+
+  (* histories that do not exhaust the 2^32 - 1 image ids (each call uses at most one new id) *)
   Theorem check_history_model : forall ops st t, Sim st t -> Forall op_ok ops ->
+    N.of_nat (length (k_ids st) + length ops) < KITTY_MAX_ID ->
     check_history contents t (map (spec_op imgs) ops) (run st (map (model_op imgs) ops)) = 0.
   Proof.
-    induction ops as [|o r IH]; intros st t HS Hok; [reflexivity|].
-    inversion Hok as [|? ? Ho Hr]; subst. cbn [map run check_history].
+    induction ops as [|o r IH]; intros st t HS Hok Hroom; [reflexivity|].
+    inversion Hok as [|? ? Ho Hr]; subst. cbn [map run check_history]. cbn [length] in Hroom.
+    assert (Hroom1 : N.of_nat (S (length (k_ids st))) < KITTY_MAX_ID) by lia.
     destruct o as [k pos|k pos|id pl err lost|]; cbn [model_op spec_op op_ok] in *.
     - destruct Ho as [Hk Hpos]. pose proof (nth_In imgs dummy_img Hk) as Hin.
       destruct (nth k imgs dummy_img) as [[img h] c]. cbn [snd step].
-      destruct (check_draw st t img h c pos HS Hin Hpos) as (t' & Hc & HS').
+      destruct (check_draw st t img h c pos HS Hin Hpos Hroom1) as (t' & Hc & HS').
+      pose proof (draw_ids_length st img h pos) as Hlen.
       destruct (draw st img h pos) as [b st'] eqn:E. cbn [fst snd] in *.
-      rewrite Hc, (IH st' t' HS' Hr). reflexivity.
+      rewrite Hc, (IH st' t' HS' Hr) by lia. reflexivity.
     - assert (Hk : (k < length imgs)%nat) by (destruct pos; [apply Ho|exact Ho]).
       pose proof (nth_In imgs dummy_img Hk) as Hin.
       destruct (nth k imgs dummy_img) as [[img h] c]. cbn [snd step].
       assert (Hp : match pos with Some p => pos_ok p | None => True end) by (destruct pos; [apply Ho|exact I]).
-      destruct (check_erase st t img h c pos HS Hin Hp) as (t' & Hc & HS').
-      rewrite Hc, (IH st t' HS' Hr). reflexivity.
+      destruct (check_erase st t img h c pos HS Hin Hp Hroom1) as (t' & Hc & HS').
+      pose proof (ids_note_length (k_ids st) h) as Hlen.
+      cbn [erase fst snd] in *.
+      rewrite Hc, (IH _ t' HS' Hr) by (cbn [note_id k_ids]; lia). reflexivity.
     - cbn [step]. destruct (check_event lost st t (EvKitty id pl err) HS) as (t' & Hc & HS').
+      pose proof (handle_ids_length st (EvKitty id pl err)) as Hlen.
       destruct (handle st (EvKitty id pl err)) as [[b st'] ret] eqn:E. cbn [fst snd] in *.
-      rewrite Hc, (IH st' t' HS' Hr). reflexivity.
+      rewrite Hc, (IH st' t' HS' Hr) by lia. reflexivity.
     - cbn [step]. destruct (check_event true st t EvOther HS) as (t' & Hc & HS').
+      pose proof (handle_ids_length st EvOther) as Hlen.
       destruct (handle st EvOther) as [[b st'] ret] eqn:E. cbn [fst snd] in *.
-      rewrite Hc, (IH st' t' HS' Hr). reflexivity.
+      rewrite Hc, (IH st' t' HS' Hr) by lia. reflexivity.
   Qed.
 End World.
 
 (* the model passes the predicate of the correspondence check on every well-formed case *)
 Theorem model_meets_predicate (quiet : bool) (imgs : list c11_img) (contents : list content) (ops : list c11_op) :
   (forall img h c, In (img, h, c) imgs -> image_wf img /\ nth_error contents c = Some (content_rec img)) ->
-  (forall i1 h1 c1 i2 h2 c2, In (i1, h1, c1) imgs -> In (i2, h2, c2) imgs ->
-     (c1 = c2 <-> image_id h1 = image_id h2)) ->
+  (forall i1 h1 c1 i2 h2 c2, In (i1, h1, c1) imgs -> In (i2, h2, c2) imgs -> (c1 = c2 <-> h1 = h2)) ->
   Forall (op_ok imgs) ops ->
+  N.of_nat (length ops) < KITTY_MAX_ID ->
   c11_code (Case quiet imgs contents ops (c11_model (Case quiet imgs contents ops []))) = 0.
 Proof.
-  intros Wimg Wid Hok. cbn [c11_code c11_model].
-  apply (check_history_model imgs contents Wimg Wid ops (kitty_new quiet) track0); [|exact Hok].
+  intros Wimg Wid Hok Hlen. cbn [c11_code c11_model].
+  apply (check_history_model imgs contents Wimg Wid ops (kitty_new quiet) track0); [|exact Hok|exact Hlen].
   apply sim_init.
 Qed.
